@@ -15,7 +15,7 @@ SAN = "-fsanitize=address,undefined -fno-sanitize-recover=undefined"
 COMMON = "-g -O1 -fno-omit-frame-pointer -DTROMPELOEIL_SANITY_CHECKS -Wno-deprecated-declarations"
 
 def W_sources(cxx):
-    srcs = [dict(src="world/real.cpp"), dict(src="world/lit.cpp")]
+    srcs = [dict(src="world/real.cpp"), dict(src="world/lit.cpp"), dict(src="world/scoped.cpp")]
     for k in range(8):
         srcs.append(dict(src="world/site.cpp", defs='-DSLOT=%d -DSLOTFILE=\'"w_slot%d.site"\'' % (k, k), tag="slot%d" % k))
     return srcs
